@@ -139,4 +139,10 @@ example : (((Node.init cfg0).run [.stage1 1 77 (some c0) 2 0]).main.getList 5).l
 -- a peer claiming the node's own address 1 installs nothing
 example : ((Node.init cfg0).run [.stage1 1 77 (some { c0 with certAddrs := [1, 5] }) 2 0]).main = {} := by decide
 
+-- a node (addresses 1 and 20) dials its OWN address 20 and is answered by a host whose certificate lists 20: nothing
+-- is installed (instance of `own_address_claim_refused_initiator` / `no_tunnel_to_own_address`)
+def cfgOwn : Cfg := { node := 0, myAddrs := [1, 20], hasV1 := true, hasV2 := true, retries := 5, interval := 100000000 }
+example : ((Node.init cfgOwn).run [.lh 20 1, .rehs 20, .tick 0, .tick 100000000, .tick 200000000,
+    .stage2 1 1001 (.completed { certAddrs := [5, 20], certVer := 2, remoteIndex := 2001, time := 3 })]).main = {} := by decide
+
 end Nebula.Props.C09
